@@ -1,12 +1,184 @@
 package main
 
+import (
+	"context"
+	"encoding/json"
+	"fmt"
+	"os"
+	"os/exec"
+	"path/filepath"
+	"regexp"
+	"strings"
+	"time"
+)
+
+// witnessValues parses the (get-value ...) answer that follows "sat".
+func witnessValues(ob *Obligation) map[string]string {
+	out := map[string]string{}
+	var ws []witnessTerm
+	for _, wt := range ob.cx.witness {
+		if wt.mark <= ob.mark {
+			ws = append(ws, wt)
+		}
+	}
+	if len(ws) == 0 {
+		return out
+	}
+	// the get-value block is the first s-expression after the status line
+	txt := ob.Output
+	i := strings.Index(txt, "((")
+	if i < 0 {
+		return out
+	}
+	// split top-level pairs
+	depth := 0
+	start := -1
+	var pairs []string
+	for j := i; j < len(txt); j++ {
+		switch txt[j] {
+		case '(':
+			depth++
+			if depth == 2 {
+				start = j
+			}
+		case ')':
+			if depth == 2 && start >= 0 {
+				pairs = append(pairs, txt[start+1:j])
+				start = -1
+			}
+			depth--
+			if depth == 0 {
+				j = len(txt)
+			}
+		}
+	}
+	for k, p := range pairs {
+		if k >= len(ws) {
+			break
+		}
+		// value is the last token / s-expression of the pair
+		p = strings.TrimSpace(p)
+		val := p
+		if strings.HasSuffix(p, ")") {
+			d := 0
+			for j := len(p) - 1; j >= 0; j-- {
+				if p[j] == ')' {
+					d++
+				} else if p[j] == '(' {
+					d--
+					if d == 0 {
+						val = p[j:]
+						break
+					}
+				}
+			}
+		} else if idx := strings.LastIndexAny(p, " \n\t"); idx >= 0 {
+			val = p[idx+1:]
+		}
+		out[ws[k].text] = strings.TrimSpace(val)
+	}
+	return out
+}
+
+type replayParams struct {
+	Scenario   string            `json:"scenario"`
+	Args       []string          `json:"args"`
+	Obligation string            `json:"obligation"`
+	Kind       string            `json:"kind"`
+	Label      string            `json:"label"`
+	Witness    map[string]string `json:"witness"`
+	Package    string            `json:"package"`
+}
+
 // tryReplay attempts to reproduce a counterexample on the real code.
 func tryReplay(o *Options, e *Engine, ob *Obligation, path string) string {
-	return "not-replayed"
+	bc := ob.cx.bc
+	if bc == nil || bc.C.Replay == "" {
+		return "not-replayed"
+	}
+	f := strings.Fields(bc.C.Replay)
+	rp := &replayParams{Scenario: f[0], Args: f[1:], Obligation: shortName(ob.Name), Kind: ob.Kind, Label: ob.Label, Witness: witnessValues(ob), Package: bc.C.PkgPath}
+	outcome, output := runScenario(o, rp)
+	// update the replay file
+	data, err := os.ReadFile(path)
+	if err == nil {
+		var rf ReplayFile
+		if json.Unmarshal(data, &rf) == nil {
+			rf.Replay = "scenario " + bc.C.Replay
+			rf.Outcome = outcome
+			rf.TestOutput = output
+			pj, _ := json.Marshal(rp)
+			rf.TestSource = string(pj)
+			writeJSON(path, &rf)
+		}
+	}
+	return outcome
+}
+
+var replayLine = regexp.MustCompile(`GOVC-REPLAY: (reproduced|not-reproduced|not-replayable)(.*)`)
+
+// runScenario runs the in-package replay test through `go test -overlay`.
+func runScenario(o *Options, rp *replayParams) (string, string) {
+	rel := strings.TrimPrefix(strings.TrimPrefix(rp.Package, modulePath), "/")
+	scDir := filepath.Join(o.Verif, "scenarios", "txfile")
+	if rel != "" {
+		scDir = filepath.Join(o.Verif, "scenarios", rel)
+	}
+	files, _ := filepath.Glob(filepath.Join(scDir, "*_test.go"))
+	if len(files) == 0 {
+		return "not-replayed", "no scenario files in " + scDir
+	}
+	tmp, err := os.MkdirTemp("", "govc-replay-")
+	if err != nil {
+		return "not-replayed", err.Error()
+	}
+	defer os.RemoveAll(tmp)
+	ov := map[string]map[string]string{"Replace": {}}
+	pkgDir := filepath.Join(o.Repo, rel)
+	for _, f := range files {
+		ov["Replace"][filepath.Join(pkgDir, filepath.Base(f))] = f
+	}
+	ovData, _ := json.Marshal(ov)
+	ovPath := filepath.Join(tmp, "ov.json")
+	os.WriteFile(ovPath, ovData, 0o644)
+	pj, _ := json.Marshal(rp)
+	pPath := filepath.Join(tmp, "params.json")
+	os.WriteFile(pPath, pj, 0o644)
+	ctx, cancel := context.WithTimeout(context.Background(), 180*time.Second)
+	defer cancel()
+	cmd := exec.CommandContext(ctx, "go", "test", "-overlay", ovPath, "-vet=off", "-count=1", "-timeout", "60s", "-v", "-run", "^TestGovcReplay$", ".")
+	cmd.Dir = pkgDir
+	cmd.Env = append(os.Environ(), "GOFLAGS=-mod=mod", "GOPROXY=off", "GOSUMDB=off", "GOTOOLCHAIN=local", "GOVC_REPLAY="+pPath, "GOCACHE="+goCache())
+	out, _ := cmd.CombinedOutput()
+	text := string(out)
+	if len(text) > 6000 {
+		text = text[:6000] + "\n...truncated"
+	}
+	if m := replayLine.FindStringSubmatch(text); m != nil {
+		return m[1], text
+	}
+	if strings.Contains(text, "panic:") || strings.Contains(text, "test timed out") {
+		// the replay itself crashed or hung outside the guarded call
+		return "reproduced", text
+	}
+	return "not-replayed", text
+}
+
+func goCache() string {
+	if c := os.Getenv("GOCACHE"); c != "" {
+		return c
+	}
+	home, _ := os.UserHomeDir()
+	return filepath.Join(home, ".cache", "go-build")
 }
 
 func runReplayTest(o *Options, fn, src string) (string, bool) {
-	return "", false
+	var rp replayParams
+	if err := json.Unmarshal([]byte(src), &rp); err != nil {
+		return "bad replay parameters: " + err.Error(), false
+	}
+	outcome, out := runScenario(o, &rp)
+	return fmt.Sprintf("%s\n%s", outcome, out), outcome == "reproduced"
 }
 
 func cmdSelfcheck(o *Options) int {
